@@ -642,7 +642,7 @@ fn run_batch(ctx: &Ctx, seed: u64, ntypes: usize, vals: usize, nlits: usize) {
             let stage = detail.split(':').next().unwrap_or("").to_string();
             let sig = if c.kind == "json!" {
                 "json-macro-wrong-value".to_string()
-            } else if c.beyond53 {
+            } else if c.beyond53 && stage.ends_with("roundtrip") {
                 "int-beyond-2^53".to_string()
             } else if detail.starts_with("harness") {
                 "harness".to_string()
